@@ -1,7 +1,7 @@
 //! Scenario K1: the real client (`Connection`, `MethodCall::{call, more, next, recv, oneway}`, error
 //! mapping) in 1..8 client tasks sharing one `Arc<RwLock<Connection>>`, against a scripted fake
 //! server played by the environment task on a simulated socket pair. The client crate instance is
-//! `varlink_cs` (same sources, the connection lock is shuttle's) so that every lock acquisition and
+//! the shadow build of /repo/varlink (the connection lock is shuttle's under cfg varlink_rust_verif_clientsync) so that every lock acquisition and
 //! every socket operation of every client thread is a scheduling point.
 //!
 //! The fake server withholds each reply until the environment's turn comes (by default: until
@@ -15,7 +15,7 @@ use std::sync::{Arc, Mutex as StdMutex};
 
 use serde_derive::{Deserialize, Serialize};
 use serde_json::{json, Value};
-use varlink_cs::{Connection, ErrorKind, MethodCall};
+use varlink::{Connection, ErrorKind, MethodCall};
 
 use crate::cases::Case;
 use crate::net::{client_pair, new_net, ConnOpts, NetRef};
@@ -118,14 +118,14 @@ fn expected_outcome(spec: &RSpec, token: &str) -> String {
     }
 }
 
-fn outcome_of(r: &Result<Value, varlink_cs::Error>) -> String {
+fn outcome_of(r: &Result<Value, varlink::Error>) -> String {
     match r {
         Ok(v) => format!("Ok:{}", v),
         Err(e) => err_outcome(e),
     }
 }
 
-fn err_outcome(e: &varlink_cs::Error) -> String {
+fn err_outcome(e: &varlink::Error) -> String {
     match e.kind() {
         ErrorKind::InterfaceNotFound(s) => format!("E:InterfaceNotFound:{}", s),
         ErrorKind::MethodNotFound(s) => format!("E:MethodNotFound:{}", s),
@@ -191,7 +191,7 @@ fn run_task(net: NetRef, conn: Arc<shuttle::sync::RwLock<Connection>>, task: usi
     for (oi, op) in ops.iter().enumerate() {
         let token = format!("t{}-{}", task, oi);
         let new_call = |tok: &str, spec: Value| {
-            MethodCall::<Value, Value, varlink_cs::Error>::new(conn.clone(), "org.sim.k.Do", json!({"token": tok, "spec": spec}))
+            MethodCall::<Value, Value, varlink::Error>::new(conn.clone(), "org.sim.k.Do", json!({"token": tok, "spec": spec}))
         };
         match op {
             KOp::Call(spec) | KOp::Resend(spec) => {
